@@ -24,6 +24,13 @@ pub fn apply_cfg(c: &mut quick_xml::reader::Config, b: &CfgBits) {
     c.trim_text_start = b[5] != 0;
     c.trim_text_end = b[6] != 0;
 }
+/// Initial configuration of a run: the library's own defaults are left untouched when the requested configuration is
+/// the documented default (so that a changed default is observed), every switch is assigned otherwise.
+pub fn apply_initial(c: &mut quick_xml::reader::Config, b: &CfgBits) {
+    if *b != DEFAULT {
+        apply_cfg(c, b);
+    }
+}
 pub fn read_cfg(c: &quick_xml::reader::Config) -> CfgBits {
     [
         c.allow_unmatched_ends as u8,
@@ -51,6 +58,9 @@ pub enum Step {
     /// read_text (slice only; other sources use read_to_end_into and report the span)
     #[serde(rename = "rtext")]
     ReadText,
+    /// Config::trim_text(on) / Config::enable_all_checks(on) between two calls
+    #[serde(rename = "hlp")]
+    Helper { name: String, on: bool },
     /// Reader::stream(): take up to `n` raw bytes through io::Read (`buf` = false) or fill_buf/consume (`buf` = true)
     #[serde(rename = "raw")]
     Stream { n: usize, buf: bool },
@@ -82,6 +92,8 @@ pub enum Src {
     Str,
     Buffered(Plan),
     Async(Plan),
+    /// Reader::from_file (a BufReader over a real file)
+    File,
     /// NsReader::from_reader(&[u8]), read with read_resolved_event (the same events, plus namespace bookkeeping)
     Ns,
     /// NsReader over a chunked BufRead, read with read_resolved_event_into
@@ -112,6 +124,19 @@ macro_rules! drive {
             let so = match st {
                 Step::SetCfg { cfg } => {
                     apply_cfg($reader.config_mut(), cfg);
+                    StepObs {
+                        o: Obs { k: "Cfg".into(), p: $reader.buffer_position(), q: $reader.error_position(), ..Default::default() },
+                        s: None,
+                        c: Some(read_cfg($reader.config())),
+                        did: "cfg".into(),
+                    }
+                }
+                Step::Helper { name, on } => {
+                    if name == "trim_text" {
+                        $reader.config_mut().trim_text(*on);
+                    } else {
+                        $reader.config_mut().enable_all_checks(*on);
+                    }
                     StepObs {
                         o: Obs { k: "Cfg".into(), p: $reader.buffer_position(), q: $reader.error_position(), ..Default::default() },
                         s: None,
@@ -221,7 +246,7 @@ pub fn run_reader(input: &[u8], cfg: &CfgBits, steps: &[Step], src: &Src) -> Run
             } else {
                 Reader::from_reader(input)
             };
-            apply_cfg(reader.config_mut(), cfg);
+            apply_initial(reader.config_mut(), cfg);
             drive!(reader, steps, out, 0,
                 read: reader.read_event(),
                 rte: |qn| reader.read_to_end(qn),
@@ -238,7 +263,7 @@ pub fn run_reader(input: &[u8], cfg: &CfgBits, steps: &[Step], src: &Src) -> Run
             let src = Chunked::new(input, plan.clone());
             let log = src.log.clone();
             let mut reader = Reader::from_reader(src);
-            apply_cfg(reader.config_mut(), cfg);
+            apply_initial(reader.config_mut(), cfg);
             let mut buf = Vec::new();
             drive!(reader, steps, out, log.borrow().len(),
                 read: { buf.clear(); reader.read_event_into(&mut buf) },
@@ -250,9 +275,28 @@ pub fn run_reader(input: &[u8], cfg: &CfgBits, steps: &[Step], src: &Src) -> Run
                 stream: |n: usize, via_buf: bool| -> std::io::Result<Vec<u8>> { crate::reader::take_raw(&mut reader.stream(), n, via_buf) });
             out.env = log.borrow().clone();
         }
+        Src::File => {
+            let dir = std::env::temp_dir().join(format!("qxv-{}", std::process::id()));
+            std::fs::create_dir_all(&dir).expect("scratch dir");
+            let path = dir.join("input.xml");
+            std::fs::write(&path, input).expect("scratch file");
+            let mut reader = Reader::from_file(&path).expect("from_file");
+            apply_initial(reader.config_mut(), cfg);
+            let mut buf = Vec::new();
+            drive!(reader, steps, out, 0,
+                read: { buf.clear(); reader.read_event_into(&mut buf) },
+                rte: |qn| { buf.clear(); reader.read_to_end_into(qn, &mut buf) },
+                rtext: |qn| -> Result<(std::ops::Range<u64>, Option<Vec<u8>>), quick_xml::Error> {
+                    buf.clear();
+                    reader.read_to_end_into(qn, &mut buf).map(|sp| (sp, None))
+                },
+                stream: |n: usize, via_buf: bool| -> std::io::Result<Vec<u8>> { crate::reader::take_raw(&mut reader.stream(), n, via_buf) });
+            std::fs::remove_file(&path).ok();
+            std::fs::remove_dir(&dir).ok();
+        }
         Src::Ns => {
             let mut reader = quick_xml::NsReader::from_reader(input);
-            apply_cfg(reader.config_mut(), cfg);
+            apply_initial(reader.config_mut(), cfg);
             drive!(reader, steps, out, 0,
                 read: reader.read_resolved_event().map(|(r, e)| { let _ = format!("{:?}", r); e }),
                 rte: |qn| reader.read_to_end(qn),
@@ -268,7 +312,7 @@ pub fn run_reader(input: &[u8], cfg: &CfgBits, steps: &[Step], src: &Src) -> Run
             let src = Chunked::new(input, plan.clone());
             let log = src.log.clone();
             let mut reader = quick_xml::NsReader::from_reader(src);
-            apply_cfg(reader.config_mut(), cfg);
+            apply_initial(reader.config_mut(), cfg);
             let mut buf = Vec::new();
             drive!(reader, steps, out, log.borrow().len(),
                 read: { buf.clear(); reader.read_resolved_event_into(&mut buf).map(|(r, e)| { let _ = format!("{:?}", r); e }) },
@@ -284,7 +328,7 @@ pub fn run_reader(input: &[u8], cfg: &CfgBits, steps: &[Step], src: &Src) -> Run
             let src = Chunked::new(input, plan.clone());
             let log = src.log.clone();
             let mut reader = Reader::from_reader(src);
-            apply_cfg(reader.config_mut(), cfg);
+            apply_initial(reader.config_mut(), cfg);
             let mut buf = Vec::new();
             drive!(reader, steps, out, log.borrow().len(),
                 read: { buf.clear(); crate::env::block_on(reader.read_event_into_async(&mut buf)) },
@@ -348,7 +392,7 @@ pub fn read_write(input: &[u8], cfg: &CfgBits, plan: Option<&Plan>) -> Option<Ve
         match plan {
             None => {
                 let mut reader = Reader::from_reader(input);
-                apply_cfg(reader.config_mut(), cfg);
+                apply_initial(reader.config_mut(), cfg);
                 for _ in 0..bound {
                     match reader.read_event() {
                         Ok(Event::Eof) => break,
@@ -359,7 +403,7 @@ pub fn read_write(input: &[u8], cfg: &CfgBits, plan: Option<&Plan>) -> Option<Ve
             }
             Some(p) => {
                 let mut reader = Reader::from_reader(Chunked::new(input, p.clone()));
-                apply_cfg(reader.config_mut(), cfg);
+                apply_initial(reader.config_mut(), cfg);
                 let mut buf = Vec::new();
                 for _ in 0..bound {
                     buf.clear();
